@@ -178,8 +178,10 @@ def _fetch_path(path: list[str], layout: StorageLayout, node: vy_ast.VyperNode):
     tmp = layout
     qualified_path = ".".join(path)
 
+    # the layout comes from a user-supplied json file: validate its shape
+    # instead of failing with a TypeError further down
     for segment in path:
-        if segment not in tmp:
+        if not isinstance(tmp, dict) or segment not in tmp:
             raise StorageLayoutException(
                 f"Could not find storage slot for {qualified_path}. "
                 "Have you used the correct storage layout file?",
@@ -187,10 +189,15 @@ def _fetch_path(path: list[str], layout: StorageLayout, node: vy_ast.VyperNode):
             )
         tmp = tmp[segment]
 
-    try:
-        ret = tmp["slot"]
-    except KeyError as e:
-        raise StorageLayoutException(f"no storage slot for {qualified_path}", node) from e
+    if not isinstance(tmp, dict) or "slot" not in tmp:
+        raise StorageLayoutException(f"no storage slot for {qualified_path}", node)
+
+    ret = tmp["slot"]
+    if not isinstance(ret, int) or isinstance(ret, bool) or ret < 0:
+        raise StorageLayoutException(
+            f"invalid storage slot for {qualified_path}: {ret!r} (expected a non-negative integer)",
+            node,
+        )
 
     return ret
 
@@ -201,9 +208,14 @@ def _allocate_with_overrides(vyper_module: vy_ast.Module, layout: StorageLayout)
     """
     allocator = OverridingStorageAllocator()
 
+    if not isinstance(layout, dict):
+        raise StorageLayoutException(
+            "Invalid storage layout override: expected a json object at the top level"
+        )
+
     nonreentrant_slot = None
     if GLOBAL_NONREENTRANT_KEY in layout:
-        nonreentrant_slot = layout[GLOBAL_NONREENTRANT_KEY]["slot"]
+        nonreentrant_slot = _fetch_path([GLOBAL_NONREENTRANT_KEY], layout, vyper_module)
 
     _allocate_with_overrides_r(vyper_module, layout, allocator, nonreentrant_slot, [])
 
